@@ -1,6 +1,7 @@
 //! yv — conformance harness binding /verif/spec (TLA+) to the real yata crate.
 //! Direction A: `*-replay` commands execute TLC-generated behaviours / tables on the real API.
 //! Direction B: `*-record` commands drive the real API and log NDJSON traces for TLC to validate.
+mod tok;
 mod util;
 mod window;
 
@@ -9,9 +10,19 @@ fn main() {
 	let args: Vec<String> = std::env::args().skip(1).collect();
 	let cmd = args.first().map(String::as_str).unwrap_or("");
 	let rest = &args[args.len().min(1)..];
+	let r = std::panic::catch_unwind(|| dispatch(cmd, rest));
+	if r.is_err() {
+		eprintln!("harness bug: {}", util::LAST_PANIC.lock().map(|g| g.clone()).unwrap_or_default());
+		std::process::exit(3);
+	}
+}
+
+fn dispatch(cmd: &str, rest: &[String]) {
 	match cmd {
 		"window-replay" => window::replay(rest),
 		"window-record" => window::record(rest),
+		"tok-replay" => tok::replay(rest),
+		"tok-record" => tok::record(rest),
 		_ => {
 			eprintln!("unknown command {cmd:?}");
 			std::process::exit(2);
